@@ -10,6 +10,8 @@ CONSTANTS H,          \* header size (24 in the library)
           RS,         \* bytes requested per recv (256)
           MaxBody,    \* bodies 0..MaxBody are explored
           MaxMsg,     \* send: message lengths 1..MaxMsg
+          MaxCalls,   \* receive() calls made one after the other on the same Socket (>= 1)
+          GenChunks,  \* chunk sizes the network uses ({} = every size; a small set keeps multi-call generation enumerable)
           MaxParts,   \* bound on the number of recv/send calls per behaviour (generation only; 0 = unbounded)
           Gen         \* TRUE: carry the schedule as a history variable and print terminal behaviours
 
@@ -20,8 +22,10 @@ VARIABLES mode,       \* "recv" | "send"
           wire,       \* send: positions of the message bytes in the order the network accepted them
           pc,         \* driver control state
           outcome,    \* "none" | "frame" | "sent" | "CommError" | "foreign"
-          hist        \* schedule so far (only when Gen)
-vars == <<mode, body, remaining, got, wire, pc, outcome, hist>>
+          hist,       \* schedule so far (only when Gen)
+          ncall,      \* number of the current receive() / send() call on this Socket
+          lastEnd     \* how the previous raw call ended the operation: "none" | "eof" | "err"
+vars == <<mode, body, remaining, got, wire, pc, outcome, hist, ncall, lastEnd>>
 
 F == H + body
 Log(e) == IF Gen THEN Append(hist, e) ELSE hist
@@ -31,8 +35,10 @@ MayCall == MaxParts = 0 \/ ~Gen \/ Parts < MaxParts
 Init == /\ mode \in {"recv", "send"}
         /\ body \in (IF mode = "recv" THEN 0..MaxBody ELSE 1..MaxMsg)
         /\ remaining = (IF mode = "recv" THEN H + body ELSE 0)
-        /\ got = 0 /\ wire = <<>> /\ outcome = "none" /\ hist = <<>>
+        /\ got = 0 /\ wire = <<>> /\ outcome = "none"
+        /\ hist = (IF Gen /\ MaxCalls > 1 THEN <<1000 + body>> ELSE <<>>)      \* multi-call schedules name the frame of every call
         /\ pc = (IF mode = "recv" THEN "hdr" ELSE "send")
+        /\ ncall = 1 /\ lastEnd = "none"
 
 (* ---------------------------------------- receive: Design ---------------------------------------- *)
 (* data = recv(RS); while len(data) < HEADER_SIZE: more; data_len = header field;                       *)
@@ -40,20 +46,30 @@ Init == /\ mode \in {"recv", "send"}
 NeedMore(g) == g < H \/ g - H < body
 RecvChunk(k) ==                     \* the network hands over k >= 1 bytes (never more than asked or left)
     /\ mode = "recv" /\ pc \in {"hdr", "body"} /\ MayCall
-    /\ k \in 1..remaining /\ k <= RS
+    /\ k \in 1..remaining /\ k <= RS /\ (GenChunks = {} \/ k \in GenChunks)
     /\ got' = got + k /\ remaining' = remaining - k
     /\ pc' = IF got + k < H THEN "hdr" ELSE IF got + k - H < body THEN "body" ELSE "done"
     /\ outcome' = IF NeedMore(got + k) THEN "none" ELSE "frame"
     /\ hist' = Log(k)
-    /\ UNCHANGED <<mode, body, wire>>
+    /\ UNCHANGED <<mode, body, wire, ncall, lastEnd>>
 RecvEof ==                          \* peer closed: recv returns b""
     /\ mode = "recv" /\ pc \in {"hdr", "body"}
-    /\ pc' = "failed" /\ outcome' = "CommError" /\ hist' = Log(0)
-    /\ UNCHANGED <<mode, body, remaining, got, wire>>
+    /\ pc' = "failed" /\ outcome' = "CommError" /\ hist' = Log(0) /\ lastEnd' = "eof"
+    /\ UNCHANGED <<mode, body, remaining, got, wire, ncall>>
 RecvErr ==                          \* socket.error / time-out
     /\ mode = "recv" /\ pc \in {"hdr", "body"}
-    /\ pc' = "failed" /\ outcome' = "CommError" /\ hist' = Log(-1)
-    /\ UNCHANGED <<mode, body, remaining, got, wire>>
+    /\ pc' = "failed" /\ outcome' = "CommError" /\ hist' = Log(-1) /\ lastEnd' = "err"
+    /\ UNCHANGED <<mode, body, remaining, got, wire, ncall>>
+(* The caller uses the same Socket again: after a complete frame, or after a socket error / time-out that ended the      *)
+(* previous call in the middle of a frame.  receive() keeps nothing between calls: whatever the failed call had          *)
+(* accumulated is gone, and the call returns exactly the frame that starts at the current position of the stream.        *)
+NextRecvCall(b) ==
+    /\ mode = "recv" /\ ncall < MaxCalls /\ MayCall
+    /\ pc = "done" \/ (pc = "failed" /\ lastEnd = "err")
+    /\ b \in 0..MaxBody
+    /\ body' = b /\ remaining' = H + b /\ got' = 0 /\ pc' = "hdr" /\ outcome' = "none" /\ lastEnd' = "none"
+    /\ ncall' = ncall + 1 /\ hist' = Log(1000 + b)
+    /\ UNCHANGED <<mode, wire>>
 
 (* ------------------------------------------ send: Design ------------------------------------------ *)
 (* while total_sent < len(msg): sent = sock.send(msg[total_sent:]); 0 or error -> CommError               *)
@@ -65,18 +81,19 @@ SendChunk(k) ==
     /\ pc' = IF got + k < body THEN "send" ELSE "done"
     /\ outcome' = IF got + k < body THEN "none" ELSE "sent"
     /\ hist' = Log(k)
-    /\ UNCHANGED <<mode, body, remaining>>
+    /\ UNCHANGED <<mode, body, remaining, ncall, lastEnd>>
 SendZero ==
     /\ mode = "send" /\ pc = "send"
     /\ pc' = "failed" /\ outcome' = "CommError" /\ hist' = Log(0)
-    /\ UNCHANGED <<mode, body, remaining, got, wire>>
+    /\ UNCHANGED <<mode, body, remaining, got, wire, ncall, lastEnd>>
 SendErr ==
     /\ mode = "send" /\ pc = "send"
     /\ pc' = "failed" /\ outcome' = "CommError" /\ hist' = Log(-1)
-    /\ UNCHANGED <<mode, body, remaining, got, wire>>
+    /\ UNCHANGED <<mode, body, remaining, got, wire, ncall, lastEnd>>
 
 Next == \/ \E k \in 1..RS : RecvChunk(k)
         \/ RecvEof \/ RecvErr
+        \/ \E b \in 0..MaxBody : NextRecvCall(b)
         \/ \E k \in 1..MaxMsg : SendChunk(k)
         \/ SendZero \/ SendErr
 Spec == Init /\ [][Next]_vars /\ WF_vars(Next)
@@ -92,9 +109,12 @@ SendInOrder       == mode = "send" => wire = [i \in 1..Len(wire) |-> i]
 SendComplete      == outcome = "sent" => Len(wire) = body
 Terminates        == <>(pc \in {"done", "failed"})
 \* action property: accumulated bytes never shrink and never exceed the frame
-Monotone == [][got' >= got /\ got' <= IF mode = "recv" THEN F ELSE body]_vars
+Monotone == [][ncall' = ncall => (got' >= got /\ got' <= IF mode = "recv" THEN F ELSE body)]_vars
+\* nothing of an earlier call is carried into the next one
+FreshCall == [][ncall' # ncall => (got' = 0 /\ remaining' = H + body')]_vars
 
 (* ------------------------------------ behaviour generation (R2) ------------------------------------ *)
-Emit == (Gen /\ pc \in {"done", "failed"}) =>
+Terminal == pc \in {"done", "failed"} /\ (ncall = MaxCalls \/ mode = "send" \/ (pc = "failed" /\ lastEnd = "eof") \/ ~MayCall)
+Emit == (Gen /\ Terminal) =>
            PrintT(<<"BEH", mode, body, hist>>)
 =============================================================================
